@@ -5,6 +5,7 @@ CONSTANTS
   MenuKind = "focus"
   MaxDepth = 3
   StartChain = FALSE
+  EmitMin = 0
   Emit = FALSE
 INVARIANT KF15Gone
 CHECK_DEADLOCK FALSE
